@@ -1,7 +1,7 @@
 (* C08 -- Strahler and classic stream orders follow their recursive definitions. *)
 From Coq Require Import List Arith ZArith Bool.
 Import ListNotations.
-From PF Require Import Arr Net SweepDown SweepUp Rank Stream StreamSpec.
+From PF Require Import Arr Net SweepDown SweepUp Rank Stream StreamSpec StrahlerBound.
 Local Open Scope Z_scope.
 
 (* the three-way update of streams.strahler_order folded over the tributary orders -- any number
@@ -27,6 +27,16 @@ Print Assumptions strahler_spec.
 Theorem kids_mem : forall ds P j c, In c (kids ds P j) <-> In c P /\ dsf ds c = j /\ c <> j.
 Proof. exact StreamSpec.kids_mem. Qed.
 Print Assumptions kids_mem.
+
+(* a cell of Strahler order k has at least 2^(k-1) cells in its catchment, so the order of any network with fewer
+   than 2^255 cells fits the uint8 result of streams.strahler_order (no wrap-around is possible; for the CLASSIC
+   order there is no such bound: known finding F13) *)
+Theorem strahler_fits : forall ds sq mask, topo ds sq ->
+  (forall i, valid ds i -> mget mask i = true -> mget mask (dsf ds i) = true) ->
+  forall j, In j sq -> mget mask j = true ->
+  2 ^ (so_of (strahler_pairs ds sq mask) j - 1) <= 1 + Z.of_nat (length sq).
+Proof. exact StrahlerBound.strahler_fits. Qed.
+Print Assumptions strahler_fits.
 
 (* classic order *)
 Theorem classic_spec : forall ds sq mask main, topo ds sq -> forall i,
